@@ -520,7 +520,9 @@ pub fn run(cfg: &Cfg, rep: &mut Report) {
     rep.floor("pixels_with_overlapping_layers", 200_000);
     rep.floor("painter.pixels_compared", 500_000);
     rep.floor("painter.scenes_with_triangles_within_2x_near", 5_000);
-    rep.floor("painter.pixels_where_the_unsorted_image_differs", 200_000);
+    // (no floor on painter.pixels_where_the_unsorted_image_differs: that the
+    // unsorted, untested image differs rests on submission-order drawing,
+    // which no statement fixes)
     rep.floor("painter.colour_only_targets_compared", 20_000);
     rep.floor("painter.slabs_crossing_near_or_far_plane", 3_000);
     let _ = ClipScene::<f32> { verts: vec![], tris: vec![] };
